@@ -68,6 +68,7 @@ type Scenario struct {
 	KillAt      int                 `json:"killat"`
 	CancelStart bool                `json:"cancelstart"` // the context given to Start is cancelled as soon as Start has returned
 	MaxSubmitMs int                 `json:"maxsubmitms"`
+	NoRespPlugin bool               `json:"noresp"`
 	FailAt      int                 `json:"failat"` // >0: the FailAt-th durable write of the run fails (not executed, error returned)
 	// FailKind / FailNth: instead of a position, the FailNth-th write of a kind fails. A kind is "<object kind>/<status>",
 	// with "+att" appended for an action that is written Running with attempts (the write of an attempt's result):
@@ -147,6 +148,10 @@ func buildPlan(sc *Scenario, pl int) *workflow.Plan {
 	} else if sc.ContDelayUs < 0 {
 		delay = 0 // Checks.Delay unset: the continuous checks run back to back
 	}
+	seqPlugin := "act"
+	if sc.NoRespPlugin {
+		seqPlugin = "actnr" // sequence actions use the plugin that declares no response type
+	}
 	mk := func(prefix string, n int) *workflow.Checks {
 		c := &workflow.Checks{Delay: delay}
 		for i := 1; i <= n; i++ {
@@ -172,7 +177,7 @@ func buildPlan(sc *Scenario, pl int) *workflow.Plan {
 			sq := &workflow.Sequence{Name: fmt.Sprintf("%s.s%d", b.Name, si+1), Descr: "s"}
 			for ai := 1; ai <= na; ai++ {
 				nm := fmt.Sprintf("%s.a%d", sq.Name, ai)
-				sq.Actions = append(sq.Actions, &workflow.Action{Name: nm, Descr: nm, Plugin: "act", Req: Req{Tag: fmt.Sprintf("%d#%s", pl, nm)}, Retries: sh.Retries, Timeout: sc.timeout()})
+				sq.Actions = append(sq.Actions, &workflow.Action{Name: nm, Descr: nm, Plugin: seqPlugin, Req: Req{Tag: fmt.Sprintf("%d#%s", pl, nm)}, Retries: sh.Retries, Timeout: sc.timeout()})
 			}
 			b.Sequences = append(b.Sequences, sq)
 		}
@@ -357,6 +362,7 @@ func mkReg(s *sched) *registry.Register {
 	reg := registry.New()
 	reg.MustRegister(&plug{name: "act", s: s})
 	reg.MustRegister(&plug{name: "chk", check: true, s: s})
+	reg.MustRegister(&plug{name: "actnr", noresp: true, s: s})
 	return reg
 }
 
